@@ -707,7 +707,7 @@ Definition parse_single (is_marker : bool) (clause : string) : res vc :=
       end
     end in
   match found with
-  | None => Err EParseConstraint
+  | None => Err ENoPattern
   | Some (txt, rest) =>
     let txt := if String.eqb txt "dev" then "0.0-dev" else txt in
     do v <- parse_version_or_fail txt;
@@ -726,16 +726,176 @@ Definition parse_single (is_marker : bool) (clause : string) : res vc :=
     end
   end end end end end.
 
+Definition parse_single_pep (is_marker : bool) (clause : string) : res vc :=
+  match parse_single is_marker clause with Err ENoPattern => Err EParseConstraint | r => r end.
 (* _parse_constraint given the clause lists the implementation's two re.split calls produced *)
 Definition parse_group (is_marker : bool) (clauses : list string) : res vc :=
   match clauses with
   | [] => Err EIndex
   | c :: rest =>
-    do first <- parse_single is_marker c;
-    fold_left (fun acc cl => do a <- acc; do b <- parse_single is_marker cl; intersect a b) rest (Ok first)
+    do first <- parse_single_pep is_marker c;
+    fold_left (fun acc cl => do a <- acc; do b <- parse_single_pep is_marker cl; intersect a b) rest (Ok first)
   end.
 Definition parse_constraint_groups (is_marker : bool) (groups : list (list string)) : res vc :=
   do gs <- mapR (parse_group is_marker) groups;
+  match gs with
+  | [g] => Ok g
+  | _ => union_of gs
+  end.
+
+(* ---- _parse_constraint on the raw text: the two re.split calls by hand ---- *)
+(* or-split  \s*\|\|?\s*  *)
+Fixpoint split_or (fuel : nat) (cur : chars) (l : chars) : list chars :=
+  match fuel with
+  | O => [(rev cur ++ l)%list]
+  | S f =>
+    match l with
+    | [] => [rev cur]
+    | c :: r =>
+      let '(ws, after_ws) := span is_space l in
+      match after_ws with
+      | d :: r2 =>
+        if code d =? 124 then
+          let r3 := match r2 with e :: r' => if code e =? 124 then r' else r2 | [] => r2 end in
+          rev cur :: split_or f [] (drop_spaces r3)
+        else match ws with
+             | [] => split_or f (c :: cur) r
+             | _ => split_or f (rev ws ++ cur)%list after_ws
+             end
+      | [] => [(rev cur ++ ws)%list]
+      end
+    end
+  end.
+(* and-split: the look-around regex of _parse_constraint, matched by hand.  A separator is: blanks,
+   one ',' or ' ' (not preceded by '-', not followed by '-'), blanks; it may not start at the
+   beginning, nor right after one of ^ ~ = > < ' ' ','; and must not be followed by ',' or the end.
+   The engine's priorities (greedy blanks with backtracking) are reproduced by trying the separator
+   position from the right. *)
+Definition and_sep_class (c : ascii) : bool :=
+  (code c =? 94) || (code c =? 126) || (code c =? 61) || (code c =? 62) || (code c =? 60)
+  || (code c =? 32) || (code c =? 44).
+Definition is_blank (c : ascii) : bool := code c =? 32.
+Definition is_dash (c : ascii) : bool := code c =? 45.
+Definition is_comma (c : ascii) : bool := code c =? 44.
+Definition head_is (p : ascii -> bool) (l : chars) : bool := match l with c :: _ => p c | [] => false end.
+(* after the separator character: blanks, then neither ',' nor the end *)
+Definition and_sep_tail (after : chars) : option chars :=
+  let '(sp, rest) := span is_blank after in
+  match rest with
+  | c :: _ => if is_comma c then match sp with [] => None | _ :: _ => Some (" "%char :: rest) end
+              else Some rest
+  | [] => match sp with [] => None | _ :: _ => Some (" "%char :: rest) end
+  end.
+Definition and_try_k (p : ascii) (rest : chars) (kmax k : nat) : option chars :=
+  if Nat.eqb k 0 && is_dash p then None
+  else if Nat.eqb k kmax then
+    match rest with
+    | c :: after => if is_comma c && negb (head_is is_dash after) then and_sep_tail after else None
+    | [] => None
+    end
+  else
+    let after := (repeat " "%char (kmax - k - 1) ++ rest)%list in
+    if head_is is_dash after then None else and_sep_tail after.
+Fixpoint and_try_ks (p : ascii) (rest : chars) (kmax k : nat) : option chars :=
+  match and_try_k p rest kmax k with
+  | Some e => Some e
+  | None => match k with O => None | S k' => and_try_ks p rest kmax k' end
+  end.
+Definition match_and_sep (prev : option ascii) (l : chars) : option chars :=
+  match prev with
+  | None => None
+  | Some p =>
+    if and_sep_class p then None
+    else let '(sp, rest) := span is_blank l in and_try_ks p rest (List.length sp) (List.length sp)
+  end.
+Fixpoint split_and (fuel : nat) (prev : option ascii) (cur : chars) (l : chars) : list chars :=
+  match fuel with
+  | O => [(rev cur ++ l)%list]
+  | S f =>
+    match l with
+    | [] => [rev cur]
+    | c :: r =>
+      match match_and_sep prev l with
+      | Some e => rev cur :: split_and f (Some " "%char) [] e
+      | None => split_and f (Some c) (c :: cur) r
+      end
+    end
+  end.
+Fixpoint rstrip_commas (l : chars) : chars :=
+  match l with
+  | [] => []
+  | c :: r => match rstrip_commas r with
+              | [] => if is_comma c then [] else [c]
+              | r' => c :: r' end
+  end.
+Definition rstrip_ws (l : chars) : chars := rev (drop_spaces (rev l)).
+Definition clause_groups (s : string) : list (list string) :=
+  let l := rstrip_ws (drop_spaces (lchars s)) in
+  map (fun g => let g := rstrip_ws (rstrip_commas g) in
+                map string_of_list_ascii (split_and (S (List.length g)) None [] g))
+      (split_or (S (List.length l)) [] l).
+
+(* BASIC_RELEASE_CONSTRAINT (pep440 = False: platform_release):
+   op? blanks release (('+'|'-') build)? end ; build = [0-9a-zA-Z-]+ ('.' [0-9a-zA-Z-]+)*  *)
+Definition is_build_char (c : ascii) : bool := is_alnum c || is_dash c.
+Fixpoint build_tail (fuel : nat) (l : chars) : chars :=
+  match fuel with
+  | O => l
+  | S f => match l with
+           | d :: c :: r => if (code d =? 46) && is_build_char c
+                            then build_tail f (snd (span is_build_char (c :: r))) else l
+           | _ => l end
+  end.
+Definition parse_release_constraint (l : chars) : res vc :=
+  let '(op, r) := match_basic_op l in
+  let r := drop_spaces r in
+  let '(ds, r1) := span is_digit r in
+  match ds with
+  | [] => Err EParseConstraint
+  | _ =>
+    let '(more, r2) := release_tail (List.length r1) r1 in
+    let release := num_of ds :: more in
+    let fin (build : option string) (rest : chars) : res vc :=
+      if at_dollar rest then
+        (* Version(release=..., local=build): the key keeps the label as written, the text is lower-cased *)
+        let lo := match build with Some b => Some [LStr b] | None => None end in
+        let v := mkV 0 release None None None lo
+                     (string_of_list_ascii (map lower (lchars (to_string_parts 0 release None None None lo)))) in
+        match op with
+        | OpLt => Ok (VOne (RR None (Some v) false false))
+        | OpLe => Ok (VOne (RR None (Some v) false true))
+        | OpGt => Ok (VOne (RR (Some v) None false false))
+        | OpGe => Ok (VOne (RR (Some v) None true false))
+        | OpNe => Ok (VUnion [RR None (Some v) false false; RR (Some v) None false false])
+        | _ => Ok (VOne (RV v))
+        end
+      else Err EParseConstraint in
+    match r2 with
+    | s :: b :: r3 =>
+      if ((code s =? 43) || (code s =? 45)) && is_build_char b then
+        let '(seg, r4) := span is_build_char (b :: r3) in
+        let r5 := build_tail (List.length r4) r4 in
+        fin (Some (consumed (b :: r3) r5)) r5
+      else fin None r2
+    | _ => fin None r2
+    end
+  end.
+Definition parse_single_ex (is_marker pep440 : bool) (clause : string) : res vc :=
+  match parse_single is_marker clause with
+  | Err ENoPattern => if pep440 then Err EParseConstraint else parse_release_constraint (lchars clause)
+  | r => r
+  end.
+Definition parse_group_ex (is_marker pep440 : bool) (clauses : list string) : res vc :=
+  match clauses with
+  | [] => Err EIndex
+  | c :: rest =>
+    do first <- parse_single_ex is_marker pep440 c;
+    fold_left (fun acc cl => do a <- acc; do b <- parse_single_ex is_marker pep440 cl; intersect a b) rest (Ok first)
+  end.
+(* _parse_constraint(constraints, is_marker_constraint, pep440) on the raw text *)
+Definition parse_constraint_text (is_marker pep440 : bool) (s : string) : res vc :=
+  if String.eqb s "*" then Ok (VOne ANY) else
+  do gs <- mapR (parse_group_ex is_marker pep440) (clause_groups s);
   match gs with
   | [g] => Ok g
   | _ => union_of gs
